@@ -47,6 +47,17 @@ def main():
         i = argv.index('-j')
         j = int(argv[i + 1])
         del argv[i:i + 2]
+    if argv[0] == '--seeded':
+        # re-run every recorded change of seeded/ (optionally only some properties) with the current checks
+        root = os.path.join(VERIF, 'seeded')
+        only = set(argv[1:])
+        jobs = [(os.path.join(root, d), d, d.split('-')[0]) for d in sorted(os.listdir(root))
+                if os.path.exists(os.path.join(root, d, 'patch.diff')) and os.path.exists(os.path.join(root, d, 'demo.py'))
+                and (not only or d.split('-')[0] in only)]
+        buckets = [jobs[i::j] for i in range(j)]
+        with ThreadPoolExecutor(j) as ex:
+            list(ex.map(work, [(k, b) for k, b in enumerate(buckets) if b]))
+        return
     root, first = argv[0], int(argv[1])
     props = argv[2:] or sorted(d for d in os.listdir(root) if os.path.isdir(os.path.join(root, d)))
     jobs = []
